@@ -338,6 +338,9 @@ def get_model_parser(top_rule, comments_model, **kwargs):
             # Contained elements are tuples: (instance, metaattr, cross-ref)
             self._crossrefs = []
 
+            # True while this parser has the user classes instrumented
+            self._user_attr_methods_replaced = False
+
         def clone(self):
             """
             Responsibility: create a clone in order to parse a separate file.
@@ -355,6 +358,7 @@ def get_model_parser(top_rule, comments_model, **kwargs):
             the_clone._inst_stack = []
             the_clone._instances = {}
             the_clone._crossrefs = []
+            the_clone._user_attr_methods_replaced = False
 
             # TODO self.memoization = memoization
             the_clone.comments = []
@@ -502,6 +506,7 @@ def get_model_parser(top_rule, comments_model, **kwargs):
             Replace get/set/del(attr) methods on user classes
             to support postponing of user obj initialization.
             """
+            self._user_attr_methods_replaced = True
             for user_class in self.metamodel.user_classes.values():
                 if "_tx_instrumented" not in user_class.__dict__:
                     self._replace_user_attr_methods_for_class(user_class)
@@ -511,8 +516,13 @@ def get_model_parser(top_rule, comments_model, **kwargs):
         def _restore_user_attr_methods(self):
             """
             Restore original get/set/del(attr) methods on user
-            classes.
+            classes. Does nothing if this parser has not replaced them
+            (e.g. a syntax error happened before the replacement) or has
+            already restored them.
             """
+            if not self._user_attr_methods_replaced:
+                return
+            self._user_attr_methods_replaced = False
             for user_class in self.metamodel.user_classes.values():
                 if hasattr(user_class, "_tx_instrumented"):
                     user_class._tx_instrumented -= 1
